@@ -100,6 +100,7 @@ F('shift', TPL('shift') + r'ParseState& ps,\s*const std::string_view& sv,\s*size
   rules=[S(r'const auto& ftor = term_ftors\[([^;]*)\];', r'size_t ftor = vx_idx(\1, term_count);', name='R13:ftor'),
          Call(r'(?<![\w.])ftor', 'vx_term_value(ftor, {1}, {2})', name='R13:term-value')], between_ok=r'\s*')
 F('reduce', TPL('reduce') + r'Context&& ctx,\s*ParseState& ps,\s*size16_t rule_info_idx\)\s*const', 'void reduce(size16_t rule_info_idx)',
+  body_pre=' unsigned vx_vs_epoch = 0, vx_start_epoch = 0;   /* ghost, local to reduce: allocation epoch of the value stack */ ',
   rules=RI + [S(r'value_variant_type\* start', 'vx_value* start', name='R13'), S(r'value_variant_type lvalue\(', 'vx_value lvalue = (', min=0, name='R13'), S(r'value_variant_type\{\}', 'vx_value_default()', min=0, name='R13:default-constructed variant'),
               S(r'ps\.reductors\.invoke\(', 'vx_invoke(', name='R13:invoke'), S(r'write_rule_diag_str\(ps\.error_stream,\s*', 'write_rule_diag_str(', name='R10')],
   between_ok=r'\s*')
